@@ -86,6 +86,12 @@ def run(ctx: core.Ctx) -> None:
                "tend": 2.0, "sched": "stepdown", "seed": 4500},
               {"kind": "ideal", "table": "pvt_gas", "nx": 10, "pf": 2000.0, "pi": 8000.0, "grid": "quadratic", "nt": 8300,
                "tend": 3.0, "sched": "none", "seed": 8300}]
+    # coarse tables (rows 200 and 500 psi apart), a frac-face pressure between two rows, runs carried to depletion: between rows the
+    # pressure -> pseudopressure map and the pseudopressure -> density map of the in-place recovery have to be the same interpolation
+    for j, (rows, pf, sched) in enumerate([(21, 750.0, "none"), (21, 1250.0, "stepdown"), (51, 300.0, "none"), (51, 250.0, "stepdown"),
+                                           (21, 1730.0, "const"), (51, 1111.0, "none")]):
+        cfgs2.append({"kind": "single", "table": f"synth_z:0.0:{rows}", "nx": 20, "pf": pf, "pi": 8000.0, "grid": "geometric", "nt": 200,
+                      "tend": 60.0, "sched": sched, "seed": 9100 + j})
     raws2 = sc.trace_runs(ctx, cfgs2, "C03", want_resid=False, want_rf=True)
     ctx.extra["repo_tests"] = sc.repo_test_traces(ctx, "C03", ["tests/flow/test_reservoir.py", "tests/forecast/test_forecast.py", "tests/test_plots.py"], False)
     if not ctx.quick:   # the documentation notebooks, cell by cell (those that need the network stop at that cell)
